@@ -42,9 +42,22 @@ func (p *Program) knownActive(id string) bool {
 	return false
 }
 
+// skipInternal: the optional harness files hi_*.go (which call unexported library functions) are left
+// out because they do not compile against the tree under check
+var skipInternal bool
+
 func harnessFiles() []string {
 	fs, _ := filepath.Glob(filepath.Join(verifDir, "harness", "*.go"))
 	sort.Strings(fs)
+	if skipInternal {
+		var keep []string
+		for _, f := range fs {
+			if !strings.HasPrefix(filepath.Base(f), "hi_") {
+				keep = append(keep, f)
+			}
+		}
+		fs = keep
+	}
 	return fs
 }
 
@@ -76,6 +89,11 @@ func loadProgram(tier string) (*Program, error) {
 		return nil, err
 	}
 	if packages.PrintErrors(pkgs) > 0 {
+		if !skipInternal {
+			skipInternal = true
+			fmt.Println("DEGRADED harness files hi_*.go (direct calls of unexported library functions) do not compile against this tree: skipped, the public-API harnesses run")
+			return loadProgram(tier)
+		}
 		return nil, fmt.Errorf("package load errors (does /repo still compile with the harness overlay?)")
 	}
 	prog, spkgs := ssautil.AllPackages(pkgs, ssa.InstantiateGenerics)
